@@ -43,6 +43,10 @@ def main():
             ctx.assumptions.append('stale .pyx (no Cython in image; compiled code reflects the .c): '
                                    + ', '.join(ctx.build_info['stale_pyx']))
         ctx.assumptions.extend(getattr(mod, 'ASSUMPTIONS', []))
+        # Import TidalPy once in this process *before* any worker is spawned: the first import on a fresh XDG_DATA_HOME writes
+        # the user-level config and unzips the world pack; 16 workers doing that concurrently race (a worker can read a
+        # half-written config and die with "'NoneType' object is not subscriptable").
+        env.tidalpy()
         mod.run(ctx)
         rc = ctx.finish()
     except core.HarnessError as e:
